@@ -678,6 +678,9 @@ def check_c16(eng, prover, base, x, res, s, ctx, meth):
         v = vals[idx]
         converted = isinstance(v, Z) and v.meta.get("fb_src") is not None
         prover.structural(f"C16/{base}/store-site:value-is-a-converted-copy", converted, x, dict(ctx, op=e[2]))
+    for e in x.events:
+        if e[0] == "requires" and str(e[2]).startswith("C16:"):
+            prover.goal(f"C16/{base}/store-site:{e[2]}", x, e[3], info=ctx)
     if meth in DETACHED_RESULTS and not isinstance(res, Raise):
         ok = isinstance(res, Z) and bool(res.meta.get("plain"))
         prover.structural(f"C16/{base}/result:derived-from-_to_base-only", ok, x, ctx)
